@@ -9,6 +9,10 @@ TECH = "contract-based deductive verification: VCs generated over go/ssa of the 
 CLAIMED = {
  "C18": ("Every obligation generated from contracts on iso8601.Parse, Valid, validate, daysSinceEpoch, isLeapYear, nonNumeric, unsafeStringToBytes (readDigits/readByte/isDigit/match inlined) is discharged for all inputs: Parse's fast path accepts exactly strict RFC 3339 'Z' timestamps with valid civil fields and returns time.Unix(independent Gregorian day count, nanos).UTC(), everything else is handed to time.Parse unchanged; Valid(s,f) <=> the flag-indexed grammar for every length and all flag values; no index/slice panic.",
          "Trusted: govc's translation, go/ssa, solvers; time.Unix/UTC/time.Parse as uninterpreted dependencies (a strict timestamp with valid fields is assumed to be accepted by time.Parse with the instant computed here); pow10 table imported from the initialised package at every run."),
+ "C02": ("Partial, on the hand-written decimal/hex parsers and integer targets: parseInt/parseUint accept a literal iff its exact (128-bit ghost) value fits 64 bits and return that value, for digit runs of any length (loop invariants, no bound); leading-zero, lone-minus and float look-ahead rules; decodeInt8..decodeUint64/decodeInt/decodeUint/decodeUintptr store a literal iff the parsed value fits the target width and leave the target untouched for null or on a parse error; parseUintHex/parseUnicode exact; number/string/literal scanners as in C05.",
+         "Not under contract: struct key lookup, map merge, interface and Unmarshaler dispatch, float parsing (strconv), ',string' decoders, arrays/slices (reflection and raw memory growth). inputError's classification of the error is trusted."),
+ "C05": ("Partial: the scalar scanners and the recursive-descent validator: parseNull/True/False accept exactly their literal; parseNumber returns a prefix made of number characters, starting with -?digit, ending in a digit, maximal for integers, with the right kind; parseString (8/16-byte word search fast path and slow path) returns a quoted prefix without control bytes, Unescaped only if every byte is printable ASCII without quote or backslash - for every position of every byte, using the whole-input flags only under the proved flag-soundness precondition; parseValue/parseArray/parseObject split their input into value and rest (definitional windows), establish flag soundness for every recursive call and never read outside the input; skipSpaces/trimTrailingSpaces exact.",
+         "Not under contract: the closed theorem Valid(b) <=> b in L(RFC 8259) for nested documents (separator protocol of the loops is checked only through the split contracts), Valid/RawMessage/Marshaler consumers, nesting depth. Trusted: bytes.IndexByte, ascii.ValidPrint (C20 contract)."),
  "C03": ("Partial, at the level of the codecs every message is built from: each size function equals an explicit size spec and each encode function returns exactly that size when the buffer suffices (and an error otherwise), for bool/int/int32/int64/uint/uint32/uint64/fixed32/fixed64/float32/float64/string/bytes; zig-zag and varint encode/decode are mutually inverse (lemmas); decoders store exactly the value the wire bytes denote.",
          "Not under contract: struct/slice/map/pointer combinator closures and reflection-driven codec construction (named in evidence.not_under_contract). Trusted: translation, solvers; destination buffer separate from the value being encoded."),
  "C07": ("Partial: totality and bounds-safety (no index/slice/nil panic for any byte string and any length) and exact results of decodeVarint (with termination measure), decodeVarintZigZag, decodeLE32/64, decodeTag, decodeVarlen (window never exceeds the input, no wrap-around for 64-bit lengths), every scalar decoder, decodeString (allocation bounded by the input) and the field-level Parse (value/rest windows adjacent, strictly shorter rest) and Scan (terminates).",
@@ -23,6 +27,8 @@ CLAIMED = {
          "Not under contract: allocation from wire sizes in ReadBytes/ReadMessage and reflect.MakeSlice/MakeMapWithSize, skip* recursion depth, Unmarshal trailing-bytes rule, MissingField/TypeMismatch reporting (reflection-driven decoder). Trusted: io.ReadFull / ReadByte / binary.ReadUvarint contracts for an in-memory stream."),
  "C13": ("Writer and Reader methods of both protocols against byte layouts transcribed from the Apache Thrift binary and compact protocol specifications: big-endian fixed-width integers and doubles, length-prefixed binaries, field/list/map headers, zig-zag varints, delta short form, size short form below 15, one-byte empty map, message headers; readers accept long forms. 14 obligations fail on the current tree and are recorded as open known findings (binary protocol type codes, 3-byte stop field, message header version/type, compact double endianness); each has a '.actual' clause pinning the present behaviour so that any other deviation is still reported.",
          "Spec functions are hand transcriptions of the two protocol documents (no reference implementation offline). Trusted: io / bytes / bufio / encoding-binary functions as documented."),
+ "C20": ("The fourteen exported wrappers return exactly the byte-wise definition applied to their own arguments (all bytes < 0x80; all bytes in 0x20-0x7e; equal length and equal after folding only A-Z; prefix/suffix by length and window) given the dependency's functions satisfy those definitions.",
+         "The dependency github.com/segmentio/asm/ascii (pure-Go fallback and amd64 assembly) is assumed to satisfy the byte-wise definitions; it is not verified here."),
  "C19": ("Partial: seen-field bitmap sizing and indexing (makeFieldset/has/set), MessageRewriter.Rewrite panic-freedom and termination for every rewriter length and every field number the wire allows, Parse's field windows, EncodeTag/DecodeTag inverse.",
          "Not under contract: JSON template compilation (parseRewriteTemplate*, reflection + json), embddedRewriter splice, Append layout; Rewriter implementations called through the interface are havoc."),
 }
@@ -33,15 +39,12 @@ NOT_APPLICABLE = {
 
 NOT_YET = {
  "C01": "not built yet (json encoders): no contract is claimed until its obligations discharge",
- "C02": "not built yet (json decoders)",
- "C05": "not built yet (json syntax-only paths)",
  "C06": "not built yet (json panic-freedom)",
  "C10": "not built yet (json memory ownership)",
  "C11": "not built yet (json.Decoder framing)",
  "C14": "not built yet (json flags)",
  "C15": "not built yet (json.Append prefix/capacity obliviousness)",
  "C17": "not built yet (json.Tokenizer)",
- "C20": "not built yet (ascii predicates)",
 }
 
 def hook_commits():
